@@ -1,12 +1,20 @@
 """C10 - INDX save then load is the identity.
 
 Proof : Properties/C10.v  (le_roundtrip, C10_roundtrip over the models Indx/Save.v, Indx/Load.v).
-Tie W2: generated entries dicts (arity 1..4, 0..6 entries, coordinate magnitude class x common magnitude
-        class, row-id arrays of length 0..6 with boundary values) and indexes built by iindex.from_array are
-        saved and loaded by the real IndxIO on real files; the bytes written and the loaded parts are
-        compared INSIDE Coq (Indx/Check.v: chk_c10) with `save` / `load` of the model and with the input.
+Proof : ... and load_wf (Indx/LoadWF.v over IIndex/Model.v: a well-formed storable index is rebuilt identically).
+Tie W2: (d) generated entries dicts (arity 1..4, 0..6 entries, coordinate magnitude class x common magnitude
+        class, row-id arrays of length 0..6 with boundary values) are saved and loaded by the real IndxIO on
+        real files; the bytes written and the loaded parts are compared INSIDE Coq (Indx/Check.v: chk_c10)
+        with `save` / `load` of the model and with the input;
+        (i) real iindex objects - built by iindex.from_array, and every well-formed state reached by the
+        operation histories of the C06 generator (harness/iindex_hist.py), also re-labelled to values that
+        need 2/4/8-byte words - are saved with IndxIO.save(f, idx, idx.common, idx.rowid_dtype), loaded, and
+        rebuilt with iindex(entries, common, shape); inside Coq (chk_c10_idx) the real state must meet the
+        hypotheses of load_wf (wf_b, storable_b), the model must write the same bytes and load what the
+        code loaded, and `rebuild` of that must be the index saved.
 Oracle: the property stated directly - load(save(x)) == x with plain-int coordinates and uint32 arrays; for
-        the reachable-index stream also iindex(...) == original and validate().
+        (i) also rebuilt == original, not (rebuilt != original), validate(check_comprehensive_unique=True),
+        the independent well-formedness conditions of iindex_hist.py_wf, and equal dense content.
 
 This module also holds what C11 and C12 share with C10: the generator, the struct-based independent
 encoder/decoder written from the class docstring, the wrappers that run the real IndxIO on real files in
@@ -321,7 +329,7 @@ def reachable_indexes(impl, rng, n):
     return out
 
 
-def run_stream(ctx, impl, n_gen, n_idx):
+def run_stream(ctx, impl, n_gen):
     """Returns (case literals, python-oracle failures, records)."""
     lits, bad, recs = [], [], []
     dist = {}
@@ -345,61 +353,143 @@ def run_stream(ctx, impl, n_gen, n_idx):
         dist["entries=%d" % desc["n"]] = dist.get("entries=%d" % desc["n"], 0) + 1
         if any(len(v) == 0 for _, v in entries):
             dist["has_empty_rowids"] = dist.get("has_empty_rowids", 0) + 1
-    # indexes the library builds itself
-    n_reach = 0
-    for idx in reachable_indexes(impl, ctx.rng, n_idx):
-        entries = [(tuple(int(c) for c in k), [int(x) for x in v.tolist()]) for k, v in dict.items(idx)]
-        common = int(idx.common)
-        rec = {"entries": [[list(k), v] for k, v in entries], "common": common, "shape": list(idx.shape), "from": "iindex.from_array"}
+    return lits, bad, recs, dist
+
+
+SCALES = [1, 1, 1, 257, 65537, 2 ** 33 + 1, 2 ** 59]
+
+
+def history_indexes(ctx, impl, n_hist):
+    """Well-formed real indexes reached by the C06 history generator (every intermediate and final state whose
+    values are unsigned - INDX stores unsigned integers only), deduplicated; some re-labelled (value -> value * M,
+    built with the real constructor) so that the index word is 2, 4 or 8 bytes wide."""
+    from .. import iindex_hist as ih
+    himpl = ih.Impl(impl.catii)
+    rng = ctx.rng
+    seen = {}
+    for _ in range(n_hist):
+        try:
+            h = ih.run_history(himpl, rng, 6, dims3=(rng.random() < 0.25), with_eq=False)
+        except Exception:   # noqa  the history machinery objecting is C06/C07's business
+            continue
+        cands = []
+        try:
+            cands.append(("init:" + h.init["via"], ih.build(himpl, h.init["spec"])))
+        except Exception:  # noqa
+            pass
+        for st in h.steps:
+            if not st.raised and not st.problems and isinstance(st.result, himpl.iindex):
+                cands.append(("history:" + str(st.op.get("op") if isinstance(st.op, dict) else "op"), st.result))
+        for via, idx in cands:
+            sp = ih.spec_of(idx)
+            if sp["common"] < 0 or any(k[0] < 0 for k, _ in sp["entries"]):
+                continue
+            m = rng.choice(SCALES)
+            if m != 1:
+                sp = {"entries": [[[k[0] * m] + k[1:], rows] for k, rows in sp["entries"]], "common": sp["common"] * m, "shape": sp["shape"]}
+                idx = ih.build(himpl, sp)
+                via += "*%d" % m
+            if ih.py_wf(idx):
+                continue
+            key = json.dumps(sp)
+            if key not in seen:
+                seen[key] = (via, idx, sp)
+    return list(seen.values())
+
+
+def oracle_index(impl, idx, sp, o):
+    """Property C10, second sentence, on real objects: the loaded parts rebuild an index equal to the one saved that validates."""
+    from .. import iindex_hist as ih
+    entries = [(tuple(k), rows) for k, rows in sp["entries"]]
+    why = oracle_roundtrip(entries, sp["common"], o)
+    if why:
+        return why
+    with open(impl.path, "rb") as f:
+        e2, c2, _ = impl.IndxIO.load(f)
+        try:
+            idx2 = impl.catii.iindex(e2, c2, idx.shape)
+            idx2.validate(check_comprehensive_unique=True)
+            if not (idx2 == idx) or (idx2 != idx):
+                return "rebuilt index != saved index"
+            w = ih.py_wf(idx2)
+            if w:
+                return "rebuilt index is ill-formed: " + w
+            if not (ih.densify(ih.spec_of(idx2)) == ih.densify(sp)).all():
+                return "rebuilt index has a different dense content"
+        except Exception as e:  # noqa
+            return "rebuilt index fails validation: %s: %s" % (type(e).__name__, e)
+        finally:
+            del e2
+    return None
+
+
+def lit_index(sp):
+    ents = "[" + "; ".join("((%s, %s), %s)" % (core.zlit(k[0]), core.zlist(k[1:]), core.zlist(rows)) for k, rows in sp["entries"]) + "]"
+    return "(Build_iindex %s %s %s %s)" % (ents, core.zlit(sp["common"]), core.zlit(sp["shape"][0]), core.zlist(sp["shape"][1:]))
+
+
+def run_index_stream(ctx, impl, n_from_array, n_hist):
+    """Real iindex objects: from_array and history-reached states.  Returns (literals, failures, records, distribution)."""
+    from .. import iindex_hist as ih
+    lits, bad, recs, dist = [], [], [], {}
+    todo = [("iindex.from_array", idx, ih.spec_of(idx)) for idx in reachable_indexes(impl, ctx.rng, n_from_array)]
+    todo = [t for t in todo if t[2]["common"] >= 0 and all(k[0] >= 0 for k, _ in t[2]["entries"])]
+    todo += history_indexes(ctx, impl, n_hist)
+    for via, idx, sp in todo:
+        rec = {"entries": sp["entries"], "common": sp["common"], "shape": sp["shape"], "from": via}
         try:
             with open(impl.path, "wb") as f:
                 impl.IndxIO.save(f, idx, idx.common, idx.rowid_dtype)
             data = impl.save_partial()
         except Exception as e:
-            bad.append(dict(rec, what="save of a from_array index raised %s: %s" % (type(e).__name__, e)))
+            bad.append(dict(rec, what="save of a well-formed index raised %s: %s" % (type(e).__name__, e)))
             continue
         o = impl.load(data)
-        why = oracle_roundtrip(entries, common, o)
-        if not why:
-            # rebuild and validate
-            with open(impl.path, "rb") as f:
-                e2, c2, _ = impl.IndxIO.load(f)
-                try:
-                    idx2 = impl.catii.iindex(e2, c2, idx.shape)
-                    idx2.validate(check_comprehensive_unique=True)
-                    if not (idx2 == idx) or (idx2 != idx):
-                        why = "rebuilt index != saved index"
-                except Exception as e:
-                    why = "rebuilt index fails validation: %s" % e
-                del e2
+        why = oracle_index(impl, idx, sp, o)
         if why:
             bad.append(dict(rec, what=why, observed=repr(o)[:600]))
-        lits.append("(%s, %s, %s, %s)" % (lit_entries(entries), core.zlit(common), lit_bytes(data), lit_obs(o)))
+        lits.append("(%s, %s, %s)" % (lit_index(sp), lit_bytes(data), lit_obs(o)))
         recs.append(rec)
-        ctx.nontrivial.add(case_key(entries, common))
-        n_reach += 1
-    dist["from_array_indexes"] = n_reach
+        ctx.nontrivial.add(("idx", json.dumps(sp)))
+        kind = "from_array" if via == "iindex.from_array" else "history"
+        dist["%s/%dD/word%d" % (kind, len(sp["shape"]), narrowest(max([sp["common"]] + [k[0] for k, _ in sp["entries"]])))] = \
+            dist.get("%s/%dD/word%d" % (kind, len(sp["shape"]), narrowest(max([sp["common"]] + [k[0] for k, _ in sp["entries"]]))), 0) + 1
     return lits, bad, recs, dist
 
 
 def run(ctx):
-    ctx.rule = ("entries dicts: arity 1..4 x 0..6 entries x coordinate class x common class (<=255, <=65535, <2^32, <2^63, independent, "
-                "boundary-biased) x row-id arrays of length 0..6 over {0,1,255,256,65535,65536,2^31,2^32-1,random}; plus indexes built by "
-                "iindex.from_array; a case is distinct per (entries, common); every case is saved and loaded for real")
+    ctx.rule = ("(d) entries dicts: arity 1..4 x 0..6 entries x coordinate class x common class (<=255, <=65535, <2^32, <2^63, independent, "
+                "boundary-biased) x row-id arrays of length 0..6 over {0,1,255,256,65535,65536,2^31,2^32-1,random}; (i) real iindex objects: "
+                "built by iindex.from_array and every well-formed unsigned state reached by C06-generator operation histories (1-D/2-D/3-D), "
+                "some re-labelled to 2/4/8-byte values; a case is distinct per (entries, common[, shape]); every case is saved and loaded for real")
     ctx.trusted = list(core.STD_TRUSTED) + TRUSTED
     pr, proof_ok = prove(ctx, "C10.v")
     build_check(ctx)
     impl = Impl(ctx)
-    n_gen, n_idx = (600, 120) if ctx.tier == "quick" else (20000, 2000)
-    lits, bad, recs, dist = run_stream(ctx, impl, n_gen, n_idx)
-    ctx.evaluations = len(lits)
-    ctx.samples = recs[:3] + recs[-2:]
+    n_gen, n_idx, n_hist = (600, 120, 150) if ctx.tier == "quick" else (20000, 2000, 3000)
+    lits, bad, recs, dist = run_stream(ctx, impl, n_gen)
+    ilits, ibad, irecs, idist = run_index_stream(ctx, impl, n_idx, n_hist)
+    ctx.evaluations = len(lits) + len(ilits)
+    ctx.samples = recs[:3] + irecs[:1] + irecs[-2:]
     ctx.coverage["input_distribution"] = dict(sorted(dist.items()))
-    res = core.run_cases("c10", PRELUDE, lits, "entries_t * Z * list Z * obs", "chk_c10", "explain_c10", shard_size=250 if ctx.tier == "quick" else 700)
-    ctx.coverage["model_disagreements"] = len(res.failing)
-    ctx.coverage["coq_case_shards_failed"] = len(res.errors)
-    ctx.coverage["tie"] = "W2: real save bytes = model save bytes, real load result = model load result = input (chk_c10, inside Coq)"
-    verdict(ctx, "C10", pr, proof_ok, bad, res, recs, "roundtrip:not-identity", "save then load did not return the saved data")
+    ctx.coverage["index_stream_distribution"] = dict(sorted(idist.items()))
+    ctx.coverage["real_indexes_round_tripped"] = len(ilits)
+    quick = ctx.tier == "quick"
+    res = core.run_cases("c10", PRELUDE, lits, "entries_t * Z * list Z * obs", "chk_c10", "explain_c10", shard_size=100 if quick else 1300)
+    ires = core.run_cases("c10i", "From Catii Require Import IIndex.Model Indx.Rebuild.\n" + PRELUDE, ilits, "iindex * list Z * obs", "chk_c10_idx", "explain_c10_idx",
+                          shard_size=100 if quick else 1300)
+    ctx.coverage["model_disagreements"] = {"dicts": len(res.failing), "indexes": len(ires.failing)}
+    ctx.coverage["coq_case_shards_failed"] = len(res.errors) + len(ires.errors)
+    ctx.coverage["tie"] = ("W2 inside Coq: chk_c10 (real save bytes = model save bytes, real load result = model load result = input); chk_c10_idx (real index "
+                           "states satisfy wf_b and storable_b, same bytes, same load result, rebuild (load bytes) = the index saved)")
+
+    class Merged:
+        pass
+    m = Merged()
+    m.failing = list(res.failing) + [len(recs) + i for i in ires.failing]
+    m.errors = res.errors + ires.errors
+    m.explain = "\n".join(x for x in (res.explain, ires.explain) if x)
+    verdict(ctx, "C10", pr, proof_ok, bad + ibad, m, recs + irecs, "roundtrip:not-identity", "save then load did not return the saved data")
 
 
 def verdict(ctx, prop, pr, proof_ok, bad, res, recs, sig, what):
